@@ -28,6 +28,7 @@ use altrios_core::track::*;
 use altrios_core::train::*;
 use altrios_core::traits::SerdeAPI;
 use altrios_core::uc;
+use altrios_core::validate::Valid;
 use serde_json::json;
 use std::collections::HashMap;
 use std::panic::AssertUnwindSafe;
@@ -438,4 +439,37 @@ pub fn run(seed: u64, n: usize, sink: &mut Sink) {
     let per_batch = if thorough { 17 } else { 7 };
     let batches = ((n.saturating_sub(sink.n)) / per_batch).max(2);
     pool_cases(&mut r.fork(), batches, thorough, sink);
+    fleet_cases(&mut r.fork(), sink);
+}
+
+/// fleet-level trip outputs (SpeedLimitTrainSimVec getters) are plain in-order sums: the same bits whatever the number of
+/// workers of the pool they are called under
+fn fleet_cases(r: &mut Rng, sink: &mut Sink) {
+    let base = SpeedLimitTrainSim::valid();
+    let mut members = vec![];
+    for j in 0..11usize {
+        let mut s = base.clone();
+        s.state.mass_freight = uc::KG * r.lrange(1e5, 1e7);
+        let steps = 5 + 7 * j + r.below(5);
+        let _ = catch(AssertUnwindSafe(|| { for _ in 0..steps { if s.step().is_err() { break; } } }));
+        members.push(s);
+    }
+    let v = SpeedLimitTrainSimVec(members.clone());
+    let mut fails = vec![];
+    for ann in [false, true] {
+        let want = [members.iter().fold(0.0, |a, s| a + s.get_energy_fuel(ann).value), members.iter().fold(0.0, |a, s| a + s.get_net_energy_res(ann).value),
+                    members.iter().fold(0.0, |a, s| a + s.get_kilometers(ann)), members.iter().fold(0.0, |a, s| a + s.get_megagram_kilometers(ann))];
+        for threads in [1usize, 2, 4, 16] {
+            let pool = rayon::ThreadPoolBuilder::new().num_threads(threads).build().expect("pool");
+            let got = pool.install(|| [v.get_energy_fuel(ann).value, v.get_net_energy_res(ann).value, v.get_kilometers(ann), v.get_megagram_kilometers(ann)]);
+            for (k, what) in ["fuel", "net battery energy", "kilometres", "megagram-kilometres"].iter().enumerate() {
+                if got[k].to_bits() != want[k].to_bits() && got[k] != want[k] {
+                    fails.push(format!("fleet {} under a pool of {} worker(s) is {} but the in-order sum of the members' outputs is {} (annualize={})", what, threads, got[k], want[k], ann));
+                }
+            }
+        }
+    }
+    let mut o = Outs::new(); o.z("members", members.len() as i64);
+    sink.put(Case { id: "fleet/getters".into(), kind: "fleet".into(), coq: String::new(), outcome: Outcome::Ok(o), tags: vec!["threads:1,2,4,16".into()],
+        input: json!({"members": members.len()}), oracle_fail: fails.into_iter().take(4).collect(), known: vec![], in_domain: true });
 }
